@@ -107,6 +107,7 @@ func TestC18(t *testing.T) {
 		q.Word8, q.Word10, q.VendorID, q.UserData = sample.Word8, sample.Word10, sample.VendorID, sample.UserData
 		q.TeeTcbSvn, q.MrSeam, q.MrSignerSeam, q.SeamAttr, q.TdAttr, q.Xfam = sample.TeeTcbSvn, sample.MrSeam, sample.MrSignerSeam, sample.SeamAttr, sample.TdAttr, sample.Xfam
 		q.MrTd, q.MrConfigID, q.MrOwner, q.MrOwnerConfig, q.Rtmr, q.ReportData = sample.MrTd, sample.MrConfigID, sample.MrOwner, sample.MrOwnerConfig, sample.Rtmr, sample.ReportData
+		w.HonestCollateral() // collateral matching the sample's TD body, for the collateral / revocation levels
 		return w
 	}
 	parse := func(w *gen.World, raw []byte, nonceUsed []byte, pol func(*validate.Options), vopt func(*verify.Options)) (any, gen.Verdict) {
@@ -258,6 +259,39 @@ func TestC18(t *testing.T) {
 				return
 			}
 		}
+		// gate 1 under the collateral / revocation levels: controls, and download failures (nothing was verified then)
+		for _, l := range []gen.Level{gen.LvlColl, gen.LvlCRL} {
+			l := l
+			st, v := parse(w, w.Raw, nonce, nil, func(o *verify.Options) { *o = *w.Options(l, w.NewGetter(), nil) })
+			if st == nil || !v.Accepted() {
+				gen.Fail(t, gen.Violation{Key: "control-blocked:" + l.String(), Oracle: "control: honest collateral does not block the state", Detail: v.String(), Replay: map[string]any{"kind": "ccel", "class": "control"}})
+				return
+			}
+		}
+		for _, fname := range []string{"pck-crl-endpoint-down", "root-crl-endpoint-down", "tcbinfo-endpoint-down", "leaf-revoked", "tcb-level-out-of-date"} {
+			for _, forged := range []bool{false, true} {
+				w2 := mkWorld(gen.Seed() + 10)
+				var f gen.Fault
+				for _, c := range gen.Faults {
+					if c.Name == fname {
+						f = c
+					}
+				}
+				f.ApplyPre(w2)
+				w2.Build()
+				f.ApplyPost(w2)
+				raw := w2.Raw
+				if forged {
+					raw = append([]byte{}, raw...)
+					raw[48+300] ^= 0x40 // a body bit, not re-signed
+				}
+				st, v := parse(w2, raw, nonce, nil, func(o *verify.Options) { *o = *w2.Options(gen.LvlCRL, w2.NewGetter(), nil) })
+				gen.NonTrivial("gate1-collateral", fname, forged)
+				if !expectBlocked(t, "verification-fault:"+fname, fmt.Sprintf("%s with revocation checking on, body forged=%v", fname, forged), st, v) {
+					return
+				}
+			}
+		}
 		// gate 2: each policy field mismatching by one bit, wrong nonce
 		type polCase struct {
 			name string
@@ -279,6 +313,19 @@ func TestC18(t *testing.T) {
 			{"minimum_tee_tcb_svn", func(o *validate.Options) {
 				m := append([]byte{}, q.TeeTcbSvn[:]...)
 				m[0]++
+				o.TdQuoteBodyOptions.MinimumTeeTcbSvn = m
+			}},
+			{"minimum_tee_tcb_svn-mixed", func(o *validate.Options) {
+				// lower than the quote in an earlier component, higher in a later one: component-wise this is a miss
+				m := append([]byte{}, q.TeeTcbSvn[:]...)
+				for i := range m {
+					if m[i] > 0 {
+						m[i]--
+						break
+					}
+				}
+				m[15]++
+				m[7]++
 				o.TdQuoteBodyOptions.MinimumTeeTcbSvn = m
 			}},
 			{"minimum_qe_svn", func(o *validate.Options) { o.HeaderOptions.MinimumQeSvn = binary.LittleEndian.Uint16(q.Word10[:]) + 1 }},
